@@ -177,11 +177,15 @@ class WagnerSoftDecisionDecoder(BaseBlockDecoder[BaseBlockCodeEncoder]):
             *batch_indices, block_idx = indices.tolist()
 
             # Find the least reliable bit in this block
-            block_values = received[batch_indices + [block_idx]]
-            least_reliable_idx = torch.argmin(torch.abs(block_values))
+            # (index with a tuple: a list of ints would be advanced indexing along the first
+            # dimension only and select whole rows instead of this one block)
+            block_position = tuple(batch_indices) + (block_idx,)
+            block_values = received[block_position]
+            least_reliable_idx = int(torch.argmin(torch.abs(block_values)))
 
             # Flip the least reliable bit
-            hard_decisions[batch_indices + [block_idx, least_reliable_idx]] = 1 - hard_decisions[batch_indices + [block_idx, least_reliable_idx]]
+            bit_position = block_position + (least_reliable_idx,)
+            hard_decisions[bit_position] = 1 - hard_decisions[bit_position]
 
         # Extract message bits (assuming systematic form where message bits come first)
         decoded = hard_decisions[..., : self.code_dimension]
